@@ -128,7 +128,7 @@ NORMAL_FORMS = {
     'html': '<div>\n{}\n</div>\n', 'hard-break': '{}  \nb\\\nc\n',
     'quote-hard-break': '> {}  \n> b\\\n> c\n', 'fence-blank': '```py\n{}\n\n```\n', 'fence-indented': '  ~~~\n  {}\n\n\n  ~~~\n',
     'quote-fence': '> ```\n> {} = 1  \n> ```\n', 'item-quote': '1. > {}  \n   > b\n',
-    'quote-html-span': '> foo <a\n> href="{}">bar</a> baz\n', 'item-html-span': '- text <!-- {}\n  more --> end\n', 'item-code-span': '- a `{}\n  c` d\n',
+    'quote-html-span': '> foo <a\n> href="{}">bar</a> baz\n', 'item-html-span': '- text <!-- {}\n  more --> end\n',
 }
 
 
